@@ -155,7 +155,9 @@ def check(run):
         sp = [canon(p) for p in _split(R(a), R(b))]
         run.count(1, ('split', a, b), nt, 'split/' + rel)
         csp = cover(sp, probes)
-        if set(csp) != {p for p in cb if p not in ca} or any(v != 1 for v in csp.values()):
+        # (on the cells of the sheet: index 0 only occurs as the first index of a whole row / column; nothing outside rng \ base)
+        if {p for p in csp if real(p)} != {p for p in cb if p not in ca and real(p)} or not set(csp) <= {p for p in cb if p not in ca} \
+                or any(v != 1 for v in csp.values()):
             run.violation('_split pieces are not exactly rng minus base, each cell once',
                           {'op': 'split', 'base': fmt(a), 'rng': fmt(b), 'impl': fmts(sp)})
         ask('split %s %s' % (fmt(a), fmt(b)),
@@ -208,7 +210,8 @@ def check(run):
         run.count(1, ('sub',) + key, nt, 'sub/' + rel)
         z = [canon(x) for x in (ranges_of(A) - ranges_of(B)).ranges]
         cz = cover(z, probes)
-        if set(cz) != {p for p in cA if p not in cB} or any(v != 1 for v in cz.values()):
+        if {p for p in cz if real(p)} != {p for p in cA if p not in cB and real(p)} or not set(cz) <= {p for p in cA if p not in cB} \
+                or any(v != 1 for v in cz.values()):
             run.violation("difference is not exactly the cells of the first operand outside the second, each once",
                           {'op': 'sub', 'a': fmts(A), 'b': fmts(B), 'impl': fmts(z)})
         ask('sub %s %s' % (fmts(A), fmts(B)),
@@ -348,6 +351,64 @@ def check(run):
         guarded(area_case, A, B, rel, True)
         if i < 3:
             run.sample({'op': 'areas', 'a': fmts(A), 'b': fmts(B)})
+
+    # ---- 2b. values supplied by whole-row / whole-column operands ------------------------------------
+    def big_values(a):
+        s_, r1, r2, c1, c2 = a
+        rows_ = np.arange(max(r1, 1), r2 + 1, dtype=np.int64); cols_ = np.arange(max(c1, 1), c2 + 1, dtype=np.int64)
+        return ((s_ << 40) + (rows_[:, None] << 15) + cols_[None, :])
+
+    def cells_of(a):
+        return (a[2] - max(a[1], 1) + 1) * (a[4] - max(a[3], 1) + 1)
+
+    def whole_rect():
+        k = rnd.random()
+        if k < 0.55:
+            r1 = rnd.randint(1, N); return (0, r1, min(r1 + rnd.randint(0, 2), maxrow), 0, maxcol)
+        if k < 0.7:
+            c1 = rnd.randint(1, N); return (0, 0, maxrow, c1, c1 + rnd.randint(0, 1))
+        r1 = rnd.randint(1, N); r2 = rnd.randint(r1, N); c1 = rnd.randint(1, N); c2 = rnd.randint(c1, N)
+        return (0, r1, r2, c1, rnd.choice([c2, c2, maxcol]))
+
+    for i in range(25 if run.tier == 'quick' else 600):
+        A = [whole_rect() for _ in range(rnd.randint(1, 2))]
+        B = [whole_rect() for _ in range(rnd.randint(1, 2))]
+        if not any(x[1] == 0 or x[3] == 0 for x in A + B) or sum(cells_of(x) for x in A + B) > 6000000:
+            continue
+        for op in ('and', 'sub', 'or'):
+            run.count(1, ('value-whole', op, tuple(A), tuple(B)), True, 'value-%s/whole-row-or-column' % op)
+            case = {'op': 'value-' + op, 'a': fmts(A), 'b': fmts(B)}
+            try:
+                VA, VB = Ranges(), Ranges()
+                for x in A:
+                    VA.push(ref(x), value=big_values(x).astype(object), context=ctx(x))
+                for x in B:
+                    # the second operand carries values only where the operation keeps its cells
+                    if op == 'or':
+                        VB.push(ref(x), value=big_values(x).astype(object), context=ctx(x))
+                    else:
+                        VB.push(ref(x), context=ctx(x))
+                r = (VA & VB) if op == 'and' else (VA - VB) if op == 'sub' else (VA | VB)
+                areas = [canon(x) for x in r.ranges]
+                if not areas or sum(cells_of(x) for x in areas) > 6000000:
+                    continue
+                v = np.asarray(r.value, object)
+            except InvalidRangeError:
+                continue
+            except Exception as ex:
+                run.violation('%s on references valued by whole rows / columns raised %s: %s' % (op, type(ex).__name__, str(ex)[:80]), case)
+                continue
+            try:
+                if len(areas) == 1:
+                    ok = v.shape == big_values(areas[0]).shape and bool((v.astype(np.int64) == big_values(areas[0])).all())
+                else:
+                    exp = np.sort(np.concatenate([big_values(x).ravel() for x in areas]))
+                    ok = v.size == exp.size and bool((np.sort(v.ravel().astype(np.int64)) == exp).all())
+            except (TypeError, ValueError):
+                ok = False
+            if not ok:
+                run.violation('the value of a reference combined from whole rows / columns is not the values of exactly its cells',
+                              dict(case, areas=fmts(areas), impl=repr(v.ravel()[:6].tolist())))
 
     # ---- 3. formula level ---------------------------------------------------------------------
     formula_cases(run, N)
